@@ -349,3 +349,10 @@ where
         }
     }
 }
+
+/// Verification build only: step proofs over the private iterator state live outside the
+/// repository and are included here so that they can name private fields.
+#[cfg(almindor_mipidsi_verif_incrate)]
+mod verif_incrate {
+    include!(concat!(env!("MIPIDSI_VERIF_INCRATE"), "/batch_proofs.rs"));
+}
